@@ -46,6 +46,24 @@ def run():
         prm2 = dict(prm, seqMode=False)
         for k, sc in enumerate(pick(scripts, 25 if quick else 300, ctx.seed + 7)):
             scs.append(U.to_scenario("C20/conc/%s/%d" % (pol, k), sc, policy=pol, thr=THR, auto_ack=True, sample_state=True, params=prm2))
+    # Flush calls whose context is already done (they may or may not hand their request to the flush loop before giving up), then a live
+    # Flush: the live one is a barrier for everything written before it - it never reports an earlier call's result
+    for k in range(6 if quick else 30):
+        steps = [{"a": "connect", "must": True}, {"a": "openUp", "obj": "U1", "qos": "reliable", "policy": {"k": "none"}, "must": True, "closeTimeoutMs": 3000},
+                 {"a": "ackMode", "mode": "auto"}]
+        t = 0
+        for rnd_ in range(4):
+            for j in range(1 + (k + rnd_) % 3):
+                t += 1
+                steps += [{"a": "write", "g": "S", "obj": "U1", "id": "AB"[t % 2], "pts": [[t, 4]], "wait": True},
+                          {"a": "flush", "g": "S", "obj": "U1", "ctxMs": -1, "wait": True}]
+            for j in range(2):
+                t += 1
+                steps.append({"a": "write", "g": "S", "obj": "U1", "id": "AB"[t % 2], "pts": [[t, 4]], "wait": True})
+            steps.append({"a": "flush", "g": "S", "obj": "U1", "ctxMs": 2000, "wait": True})
+        steps += [{"a": "closeUp", "g": "S", "obj": "U1", "wait": True, "ctxMs": 3000}, {"a": "quiesce"}, {"a": "closeConn", "g": "main2", "wait": True, "ctxMs": 2000}]
+        scs.append({"id": "C20/abandonedFlush/%d" % k, "kind": "iscp", "conn": {}, "steps": steps,
+                    "p": {"policy": "none", "thr": THR * U.UNIT, "intervalMs": 0, "seqMode": False}})
     trace = ctx.run_scenarios(scs, "c20", par=16)
     # timed family (interval policies), low parallelism
     tscs = []
